@@ -45,6 +45,9 @@ def isValid (cs : Coins) : Bool :=
 
 def isAnyNegative (cs : Coins) : Bool := cs.any (·.amount < 0)
 
+/-- `Coins.IsZero()`: every coin has a zero amount (in particular the empty set). -/
+def isZero (cs : Coins) : Bool := cs.all (·.amount = 0)
+
 /-- Insert a coin before the first coin with a larger denomination. -/
 def insertSorted : Coins → Coin → Coins
   | [], c => [c]
